@@ -150,6 +150,13 @@ def run_one(s):
                     pe["normals"], pe["normals_full"] = ra_[1], rb_[1]
                 else:
                     pe["normals_exc"] = "after:%s/original:%s" % (ra_[1] if len(ra_) > 1 and ra_[0] != "ok" else ra_[0], rb_[1] if len(rb_) > 1 and rb_[0] != "ok" else rb_[0])
+            # a user-set volume belongs to the domain: it survives the binding (primitives only)
+            pe["uservol_pe"], pe["uservol_pe_exc"] = [], "none"
+            if e["k"] in ("interval", "circle", "par", "tri", "sphere"):
+                d3 = U.build(e)
+                r6 = watched(lambda: (d3.set_volume(5.0), d3(**{n: float(v) for n, v in bind.items()}).volume(U.mk_params(rest, rrows)))[1])
+                pe["uservol_pe"] = fxv(r6[1], VS) if r6[0] == "ok" else []
+                pe["uservol_pe_exc"] = "" if r6[0] == "ok" else (r6[1] if len(r6) > 1 else "hang")
             # the ORIGINAL domain evaluated at bound values + remaining rows: must agree with D2
             full = {}
             attr(dom, names, [dict(r_, **bind) for r_ in rows], full)
